@@ -13,6 +13,7 @@ import (
 // Ethernet minimum), so the IPv4 parser must cut its payload at the datagram's total-length field – handing on
 // everything after the header lets the padding through and every short UDP probe is dropped before it can knock.
 func c20FrameTrimmed(c *Ctx) {
+	c.Explanation += " The IPv4 payload handed to the transport parsers is cut at the total-length field."
 	p := c.P
 	const rule = "payload-cut-at-ip-length"
 	um := p.Method(canaryRel+"/ipv4", "Header", "Unmarshal")
